@@ -122,3 +122,11 @@ func SetOverride(m map[ssa.Value]ssa.Value) func() {
 		}
 	}
 }
+
+// Bound returns the argument a parameter is currently bound to (SetOverride), or nil.
+func Bound(p *ssa.Parameter) ssa.Value {
+	if a, ok := override[p]; ok {
+		return a
+	}
+	return nil
+}
